@@ -36,6 +36,7 @@ type c12File struct {
 	chain    bool
 	orig     []byte
 	origSide []byte
+	snapNo   int // which snapshot directory (for the model)
 }
 
 type c12Store struct {
@@ -131,6 +132,23 @@ func c12WriteSnap(t *testing.T, root, id string, idx uint64, name string, data [
 	return p
 }
 
+// c12AddFile adds a data file (+ sidecar) to a snapshot directory, creating it with its
+// meta.json when needed.
+func c12AddFile(t *testing.T, root, id string, idx uint64, name string, data []byte) string {
+	sd := filepath.Join(root, id)
+	if _, err := os.Stat(sd); err != nil {
+		return c12WriteSnap(t, root, id, idx, name, data)
+	}
+	p := filepath.Join(sd, name)
+	if err := os.WriteFile(p, data, 0o644); err != nil {
+		t.Fatal(err)
+	}
+	if err := sidecar.WriteFile(p+crcSuffix, c12CRC(data)); err != nil {
+		t.Fatal(err)
+	}
+	return p
+}
+
 var c12Castagnoli = crc32.MakeTable(crc32.Castagnoli)
 
 func c12crc32(b []byte) uint32 { return crc32.Checksum(b, c12Castagnoli) }
@@ -146,7 +164,7 @@ var c12Pool []*c12Set
 // c12GetSet returns one of a small pool of generated file sets (SQLite work is the slow part).
 func c12GetSet(t *testing.T, r *vfRng, root string) *c12Set {
 	if len(c12Pool) < vfScale(8, 40) {
-		nw := len(c12Pool) % 4
+		nw := len(c12Pool) % 8
 		base, wals := c12RealFiles(t, r, root, nw)
 		older, _ := c12RealFiles(t, r, root, 0)
 		exp, err := c12Replay(root, base, wals)
@@ -169,20 +187,41 @@ func c12BuildStore(t *testing.T, r *vfRng, root string) *c12Store {
 	base, wals := set.base, set.wals
 	if r.Chance(30) {
 		ob := set.older
-		id := "2-100-1700000000100"
-		p := c12WriteSnap(t, dir, id, 100, dbfileName, ob)
+		id := "2-5-1700000000100"
+		p := c12WriteSnap(t, dir, id, 5, dbfileName, ob)
 		sb, _ := os.ReadFile(p + crcSuffix)
-		st.files = append(st.files, &c12File{dir: id, path: p, isDb: true, chain: false, orig: ob, origSide: sb})
+		st.files = append(st.files, &c12File{dir: id, path: p, isDb: true, chain: false, orig: ob, origSide: sb, snapNo: 100})
 	}
-	id := "2-200-1700000000200"
-	p := c12WriteSnap(t, dir, id, 200, dbfileName, base)
+	baseIdx := uint64([]int{200, 8, 97, 998}[r.Intn(4)])
+	id := fmt.Sprintf("2-%d-1700000000200", baseIdx)
+	p := c12WriteSnap(t, dir, id, baseIdx, dbfileName, base)
 	sb, _ := os.ReadFile(p + crcSuffix)
 	st.files = append(st.files, &c12File{dir: id, path: p, isDb: true, chain: true, orig: base, origSide: sb})
-	for i, w := range wals {
-		id := fmt.Sprintf("2-%d-17000000003%02d", 300+i, i)
-		p := c12WriteSnap(t, dir, id, uint64(300+i), "00000001.wal", w)
-		sb, _ := os.ReadFile(p + crcSuffix)
-		st.files = append(st.files, &c12File{dir: id, path: p, isDb: false, chain: true, orig: w, origSide: sb})
+	// a full snapshot installed from a leader carries its own WAL files (data-0000000N.wal)
+	i := 0
+	if r.Chance(30) {
+		for ; i < len(wals) && i < 1+r.Intn(2); i++ {
+			p := c12AddFile(t, dir, id, baseIdx, fmt.Sprintf("data-%08d.wal", i), wals[i])
+			sb, _ := os.ReadFile(p + crcSuffix)
+			st.files = append(st.files, &c12File{dir: id, path: p, isDb: false, chain: true, orig: wals[i], origSide: sb})
+		}
+	}
+	// incremental snapshots hold one or two WAL files each
+	snapNo := 0
+	for i < len(wals) {
+		snapNo++
+		idx := baseIdx + uint64(snapNo)
+		id := fmt.Sprintf("2-%d-17000000003%02d", idx, snapNo)
+		k := 1
+		if r.Chance(35) && i+1 < len(wals) {
+			k = 2
+		}
+		for j := 0; j < k; j++ {
+			p := c12AddFile(t, dir, id, idx, fmt.Sprintf("%08d.wal", j+1), wals[i+j])
+			sb, _ := os.ReadFile(p + crcSuffix)
+			st.files = append(st.files, &c12File{dir: id, path: p, isDb: false, chain: true, orig: wals[i+j], origSide: sb, snapNo: snapNo})
+		}
+		i += k
 	}
 	st.expected = set.expected
 	return st
@@ -220,6 +259,9 @@ func c12Kind(f *c12File) string {
 // does not see).
 func c12Corrupt(r *vfRng, st *c12Store) (kind string, op string, effective bool, target *c12File) {
 	i := r.Intn(len(st.files))
+	if r.Chance(40) {
+		i = len(st.files) - 1 - r.Intn(min(2, len(st.files)))
+	}
 	f := st.files[i]
 	target = f
 	cur, _ := os.ReadFile(f.path)
@@ -391,7 +433,7 @@ func TestVerifC12(t *testing.T) {
 	defer rep.Write()
 	r := vfNewRng(12)
 	root := t.TempDir()
-	n := vfScale(90, 2500)
+	n := vfScale(110, 9000)
 	var segOps, segImpl [][]string
 	for it := 0; it < n; it++ {
 		st := c12BuildStore(t, r, root)
@@ -399,7 +441,7 @@ func TestVerifC12(t *testing.T) {
 		c.ops = []string{"new"}
 		c.impl = []string{"ok"}
 		for _, f := range st.files {
-			c.ops = append(c.ops, fmt.Sprintf("file %s %s %s", c12Kind(f), vfHexB(f.orig), c12SideTok(f.path)))
+			c.ops = append(c.ops, fmt.Sprintf("file %s %d %s %s", c12Kind(f), f.snapNo, vfHexB(f.orig), c12SideTok(f.path)))
 			c.impl = append(c.impl, "ok")
 		}
 		timing := []string{"none", "before-start", "before-start", "after-first-verification", "after-first-verification"}[r.Intn(5)]
